@@ -11,8 +11,8 @@
 (***************************************************************************)
 EXTENDS Naturals, Sequences, TLC, Json
 
-VARIABLES meta, target, install, pth, builtin, pkg
-vars == <<meta, target, install, pth, builtin, pkg>>
+VARIABLES meta, target, install, pth, builtin, pkg, onward
+vars == <<meta, target, install, pth, builtin, pkg, onward>>
 
 Init == /\ meta \in {"dist-info", "egg-info"}
         /\ target \in {"module", "package", "missing"}
@@ -24,6 +24,11 @@ Init == /\ meta \in {"dist-info", "egg-info"}
         /\ (pth = "rawdash" => pkg = "my-plug")
         \* direct_url.json lives in dist-info only (scanner.rs:793): editable egg-info installs are not a layout pip produces
         /\ (install # "regular" => meta = "dist-info")
+        \* what the entry MODULE pulls in from a sibling module that only it refers to (phase 4 of the scan must start
+        \* its import walk from installed plugin entry modules too): nothing, `from .plugfx import *`, `from plugfx import *`,
+        \* `pytest_plugins = ["plugfx"]`.  A package target is scanned as a directory, so this only matters for modules.
+        /\ onward \in {"none", "star_rel", "star_abs", "plugins"}
+        /\ (target # "module" => onward = "none")
 Next == UNCHANGED vars
 Spec == Init /\ [][Next]_vars
 
@@ -34,10 +39,11 @@ ClassOf == CASE install = "regular" -> "third"
 
 Expect == [plug_fx |-> IF target = "missing" THEN "absent" ELSE ClassOf,
            sub_fx |-> IF target = "package" THEN ClassOf ELSE "absent",
-           builtin_fx |-> IF builtin THEN "third" ELSE "absent"]
+           builtin_fx |-> IF builtin THEN "third" ELSE "absent",
+           imp_fx |-> IF target = "module" /\ onward # "none" THEN ClassOf ELSE "absent"]
 
 \* third-party fixtures are never project fixtures
 ThirdNeverProject == \A n \in DOMAIN Expect : Expect[n] # "project"
 EmitCase == PrintT("CASE " \o ToJson([meta |-> meta, target |-> target, install |-> install, pth |-> pth,
-                                     builtin |-> builtin, pkg |-> pkg, expect |-> Expect]))
+                                     builtin |-> builtin, pkg |-> pkg, onward |-> onward, expect |-> Expect]))
 =============================================================================
